@@ -1,5 +1,5 @@
 //@ unit memfs_move
-//@ props C09 C01 C03 C12
+//@ props C09 C01 C03 C12 C06
 // Memfs::move_p: a work-stack relocation of a subtree.
 //@ prelude base errors io iter path_abs memfs_state memfs_api
 //@ struct file=src/sys/fs/memfs/file.rs name=MemfsFile
@@ -555,7 +555,7 @@ pub proof fn lemma_valid_free(s0: St, a: PathV, d0: PathV)
 }
 //@ obligation lemma_valid_free props=C09,C01,C03
 
-//@ item move_p file=src/sys/fs/memfs/vfs.rs block="impl VirtualFileSystem for Memfs" fn=move_p props=C09,C01,C03,C12
+//@ item move_p file=src/sys/fs/memfs/vfs.rs block="impl VirtualFileSystem for Memfs" fn=move_p props=C09,C01,C03,C12,C06
 //@ sig fn move_p<T: AsRef<Path>, U: AsRef<Path>>(&self, src: T, dst: U) -> RvResult<()>
 //@ rw R11 1 ⟦let mut guard = self.write_guard();⟧ => ⟦⟧
 //@ rw R11 1 ⟦self._abs(&guard, src)?⟧ => ⟦_abs(guard, src)?⟧
